@@ -1106,13 +1106,20 @@ def eval_proxy(case):
     from types import SimpleNamespace
     from frappy.datatypes import get_datatype
     from frappy.proxy import ProxyModule
-    params, remote, built = {}, {}, []
+    params, remote, built, undescribed = {}, {}, [], []
     for p in case['params']:
         dt = dicodec.di_to_dt(p['dt'])
         params[p['name']] = SimpleNamespace(export=p['export'], readonly=p['readonly'], datatype=dt)
         bp = dict(p, dt=dicodec.erase(dicodec.dt_to_di(dt)))
         if p['remote'] is not None:
-            rdt = get_datatype(jround(dicodec.di_to_dt(p['remote']['dt']).export_datatype()), p['name'])
+            try:
+                rdt = get_datatype(jround(dicodec.di_to_dt(p['remote']['dt']).export_datatype()), p['name'])
+            except Exception as e:
+                # a description the real get_datatype refuses: reported as a disagreement (the model has no such outcome)
+                undescribed.append(f"{p['name']}:{type(e).__name__}")
+                bp['remote'] = None
+                built.append(bp)
+                continue
             remote[p['name']] = {'datatype': rdt, 'readonly': p['remote']['readonly']}
             bp['remote'] = {'dt': dicodec.erase(dicodec.dt_to_di(rdt)), 'readonly': p['remote']['readonly']}
         built.append(bp)
@@ -1121,7 +1128,13 @@ def eval_proxy(case):
         cmds[c['name']] = SimpleNamespace(datatype=cmd_dt(c['dt']))
         bc = dict(c, dt=norm_cmd(c['dt']))
         if c['remote'] is not None:
-            rdt = get_datatype(jround(cmd_dt(c['remote']).export_datatype()), c['name'])
+            try:
+                rdt = get_datatype(jround(cmd_dt(c['remote']).export_datatype()), c['name'])
+            except Exception as e:
+                undescribed.append(f"{c['name']}:{type(e).__name__}")
+                bc['remote'] = None
+                cbuilt.append(bc)
+                continue
             remotecmds[c['name']] = {'datatype': rdt}
             bc['remote'] = {'arg': dicodec.erase(dicodec.dt_to_di(rdt.argument)) if rdt.argument is not None else None,
                             'res': dicodec.erase(dicodec.dt_to_di(rdt.result)) if rdt.result is not None else None}
@@ -1147,6 +1160,8 @@ def eval_proxy(case):
             'commands': [[c['name'], cout[c['name']]] for c in case.get('commands', [])]}
     if crashed:
         impl['crashed'] = crashed
+    if undescribed:
+        impl['remote-description-refused'] = undescribed
     return {'params': built, 'commands': cbuilt}, impl
 
 
